@@ -537,7 +537,16 @@ pub fn run_c06(o: &Opts) -> i32 {
         let (a, b) = (rng.pick(g).clone(), rng.pick(g).clone());
         let c = *rng.pick(&["1", "3", "2.5", "1|7", "1000", "1e-3", "12"]);
         let src = format!("{} {}", coef_pos(&mut rng), a);
-        let text = match rng.below(8) {
+        let x = db.rand_name(&mut rng);
+        let text = match rng.below(15) {
+            // the same unit on both sides of a division in the target; a constant under a (negative) power
+            8 => format!("{} -> {} {} / {}", src, b, x, x),
+            9 => format!("{} / {}^2 -> {} / {} / {}", src, x, b, x, x),
+            10 => format!("{} -> {}^3 / {} / {}", src, b, b, b),
+            11 => format!("({})^-1 -> ({} {})^-1", src, c, b),
+            12 => { let k = rng.range(-3, 3); format!("({})^{} -> ({} {})^{}", src, k, c, b, k) }
+            13 => format!("{} -> {} / ({} {})^-1 / {}", src, b, c, x, x),
+            14 => format!("1 / ({}) -> 1 / ({} {})", src, c, b),
             0 => format!("{} -> {} {}", src, c, b),
             1 => format!("{} -> {}{}", src, rng.pick(&db.prefixes), b),
             2 => format!("{} -> {} / {}", src, b, c),
